@@ -198,7 +198,15 @@ def replay(path):
         load_leaf(s_.src, 'eolib.protocol.protocol_enum_meta')
         import gen_driver
         try:
-            out = gen_driver.do_enum(None, dict(functional=[[('None_' if n == 'None' else n), v] for n, v in inp['decl']], calls=inp['calls']))
+            if inp.get('how') == 'functional-api-auto':
+                # the auto-numbered form: names only, numbering from the first declared ordinal
+                job_ = dict(functional_names=[n for n, _ in inp['decl']], start=inp['decl'][0][1], calls=inp['calls'])
+            else:
+                job_ = dict(functional=[[('None_' if n == 'None' else n), v] for n, v in inp['decl']], calls=inp['calls'])
+            out = gen_driver.do_enum(None, job_)
+            decl_ = [[('None_' if n == 'None' else n), v] for n, v in inp['decl']]
+            if out['members'] != decl_:
+                out['problems'].insert(0, f"the enum built from the declaration has members {out['members']}, declared {decl_}")
             probs = out['problems']
         except BaseException as ex:
             probs = [f"{type(ex).__name__}: {ex}"]
